@@ -173,6 +173,23 @@ def gen_texts(seed, tier):
     for m in ['lower', 'upper', 'strip', 'startswith', 'endswith', 'replace', 'memo', 'item', 'amount', 'description']:
         for r in ['description', 'field', 'rows[0]', 'txn']:
             texts += [f'({r}.{m}() or 1) and {m}', f'({r}.{m} or 1) and {m}', f'[{r}.{m}, {m}][1]']
+    # text that looks like a number, compared / combined with numbers (a convenience coercion must not hand data text to the
+    # compiler or to eval), and arguments far outside a function's range (a warning raised from inside evaluation is I/O)
+    for t in ['r.qty', 'rows[0].qty', 'rows[1].qty', 'field.num', 'field.hexy', 'rows[0].sku', 'rows[1].sku', '"3"', '"0x1F"', '"1_0"', '"1e3"',
+              '"-7"', '".5"', '"7-ELEVEN 12"', '"(1)"', '"1+1"', '"__import__(\'os\')"', '"[1]"', 'description', 'field.memo']:
+        pre = 'next(r for r in rows).qty' if t == 'r.qty' else t
+        for op in ['>', '<', '==', '!=', '>=', '<=']:
+            texts += [f'{pre} {op} 1', f'1 {op} {pre}', f'{pre} {op} 1.5', f'{pre} {op} amount']
+        texts += [f'{pre} + 1', f'1 + {pre}', f'{pre} * 2', f'abs({pre})', f'round({pre})', f'sum([{pre}, 1])', f'max({pre}, 1)', f'{pre} in [3, 31, 10]',
+                  f'[r for r in rows if r.qty > 1]', f'any(r.qty == 3 for r in rows)', f'sum(r.qty for r in rows)']
+    for f, args in [('fuzzy', ['"STARBUCKS", 80', '"STARBUCKS", -1', '"STARBUCKS", 1.5', '"STARBUCKS", 100', 'description, "STARBUCKS", 80',
+                               '"STARBUCKS", 0', '"STARBUCKS", 1', '"STARBUCKS", "0.8"', '"STARBUCKS", None']),
+                    ('round', ['amount, 999', 'amount, -999', 'amount, 1e9', 'amount, None']),
+                    ('substring', ['-1, 99999', '99999, -1', '0, 1e9', 'description, -5, 5']),
+                    ('split', ['"-", 99999', '"-", -99999', '"", 0', '" ", 1e9']),
+                    ('extract', ['"(.)", 99', '"(.)", -1']), ('regex_replace', ['"A", "B", 99', '"A", "\\\\9"'])]:
+        for a in args:
+            texts += [f'{f}({a})', f'trim({f}({a}))', f'{f}({a}) or 1']
     # names and spellings that could reach the process environment / interpreter state (canary values are planted by the runner)
     for k in ['VERIF_CANARY_ENV', 'VERIF_CANARY_NUM', 'verif_canary_lower', 'LARGE_PURCHASE', 'PATH', 'HOME', 'PYTHONPATH', 'USER', 'PWD']:
         texts += [k, k.lower(), k.upper(), f'{k} > 1', f'trim({k})', f'"%s" % {k}', f'amount > {k}', f'[{k} for r in rows]',
